@@ -16,6 +16,7 @@ import EqsigVerif.Handlers.Prelude
 import EqsigVerif.Handlers.PreludeE
 import EqsigVerif.Handlers.PreludeP
 import EqsigVerif.Handlers.PreludeS
+import EqsigVerif.Handlers.PreludeU
 import EqsigVerif.Handlers.Butter
 import EqsigVerif.Handlers.Single2
 import EqsigVerif.Handlers.Spec2
@@ -28,6 +29,6 @@ namespace EqsigVerif.Handlers
 open EqsigVerif.Wire
 
 def table : List (String × Handler) :=
-  Butter.handlers ++ Single2.handlers ++ Spec2.handlers ++ Freq2.handlers ++ Single3.handlers ++ LwSmall.handlers ++ Rest2.handlers ++ Prelude.handlers ++ PreludeE.handlers ++ PreludeP.handlers ++ PreludeS.handlers ++ Displacements.handlers ++ Sdof.handlers ++ Fns.handlers ++ DesignSpectra.handlers ++ Loader.handlers ++ SignalSM.handlers ++ Fourier.handlers ++ TimeStep.handlers ++ Surface.handlers ++ Misc.handlers ++ Peaks.handlers ++ Switched.handlers ++ PowerLaw.handlers ++ Im.handlers.map (fun (p : String × Handler) => (if p.1 = "peaks" then "pgx" else p.1, p.2))
+  Butter.handlers ++ Single2.handlers ++ Spec2.handlers ++ Freq2.handlers ++ Single3.handlers ++ LwSmall.handlers ++ Rest2.handlers ++ Prelude.handlers ++ PreludeE.handlers ++ PreludeP.handlers ++ PreludeS.handlers ++ PreludeU.handlers ++ Displacements.handlers ++ Sdof.handlers ++ Fns.handlers ++ DesignSpectra.handlers ++ Loader.handlers ++ SignalSM.handlers ++ Fourier.handlers ++ TimeStep.handlers ++ Surface.handlers ++ Misc.handlers ++ Peaks.handlers ++ Switched.handlers ++ PowerLaw.handlers ++ Im.handlers.map (fun (p : String × Handler) => (if p.1 = "peaks" then "pgx" else p.1, p.2))
 
 end EqsigVerif.Handlers
